@@ -540,6 +540,19 @@ def all_split_positions(data):
 # the loop
 # --------------------------------------------------------------------------
 
+class _VTask(tasks.Task):
+    """Task that hashes by its creation index: sets of tasks (asyncio.wait arguments, the dispatcher's
+    `pending | extra_workers`) then iterate in an order that depends on the execution only, not on memory addresses,
+    so that one choice sequence always replays to the same execution."""
+
+    def __init__(self, idx, coro, **kw):
+        self._vf_idx = idx
+        super().__init__(coro, **kw)
+
+    def __hash__(self):
+        return self._vf_idx
+
+
 class SimLoop(base_events.BaseEventLoop):
     def __init__(self, chooser=None, window=65536, max_iterations=200000):
         super().__init__()
@@ -554,7 +567,7 @@ class SimLoop(base_events.BaseEventLoop):
         self.set_exception_handler(self._on_error)
         self._task_counter = itertools.count(1)
         self.task_index = {}
-        self.set_task_factory(self._task_factory)
+        self.set_task_factory(self._make_task)     # (BaseEventLoop keeps the factory in self._task_factory)
         self.current_owner = "server"   # who creates listeners/connections right now
         self.iter_hook = None     # callback(iteration) at the start of every select()
         self.time_hook = None     # callback(n) just before the n-th advance of virtual time (nothing else can happen)
@@ -564,13 +577,8 @@ class SimLoop(base_events.BaseEventLoop):
     def _on_error(self, loop, context):
         self.errors.append(context)
 
-    def _task_factory(self, loop, coro, **kw):
-        t = tasks.Task(coro, loop=loop, **kw)
-        try:
-            t._vf_idx = next(self._task_counter)
-        except Exception:  # pragma: no cover
-            pass
-        return t
+    def _make_task(self, loop, coro, **kw):
+        return _VTask(next(self._task_counter), coro, loop=loop, **kw)
 
     # -- selector facade ---------------------------------------------------
     def select(self, timeout):
